@@ -646,6 +646,7 @@ impl DecoderState {
         }
         self.len_decoder.verif_hash_state(h);
         self.rep_len_decoder.verif_hash_state(h);
+        h.write_u8(self.end_marker_seen as u8);
     }
 }
 
